@@ -733,10 +733,16 @@ class Translator:
         for c in n.get('inner', []):
             argts.append(c)
         cands = []
+        decls = {}
         for m, d in self.u.funcs.items():
             if d.get('kind') == 'CXXConstructorDecl' and d.get('name') == rec:
                 ps = [p for p in d.get('inner', []) if p.get('kind') == 'ParmVarDecl']
-                cands.append((m, ps))
+                cands.append((m, ps)); decls[m] = d
+        # constructors defined in another translation unit: their declarations (from the header) carry the mangled name too
+        for d in self.u.by_id.values():
+            if d.get('kind') == 'CXXConstructorDecl' and d.get('name') == rec and d.get('mangledName') and d['mangledName'] not in decls and not d.get('isImplicit'):
+                ps = [p for p in d.get('inner', []) if p.get('kind') == 'ParmVarDecl']
+                cands.append((d['mangledName'], ps)); decls[d['mangledName']] = d
         ctype = n.get('type', {}).get('qualType')
         # match on the constructor's function type recorded by clang when present
         want = None
@@ -744,7 +750,7 @@ class Translator:
             if key in n: want = n[key].get('qualType')
         if want:
             for m, ps in cands:
-                if self.u.funcs[m].get('type', {}).get('qualType') == want:
+                if decls[m].get('type', {}).get('qualType') == want:
                     return m
         for m, ps in cands:
             if len(ps) == len(argts):
